@@ -12,11 +12,11 @@ PROPERTY = "C03"
 LEVEL = "exploration"
 RULE = ("(a) every command class is constructed over comm 0..255, counts 1..125, all signed 16-bit values (exhaustive), "
         "registers (boundaries + random quick / all 65536 thorough), even payloads 2..246 bytes (8-byte groups for AA55) and "
-        "its request_bytes() is parsed by independent RTU / MBAP / AA55 decoders and compared with the arguments; icontract "
+        "its request_bytes() is parsed by independent RTU / MBAP / AA55 decoders and compared with the arguments (also the commands that UdpInverterProtocol / TcpInverterProtocol objects build for every configured comm address); icontract "
         "postconditions do the same on the real create_modbus_* builders; (b) a history of 200 000 consecutive Modbus/TCP "
         "request_bytes() calls (3 wraps of the transaction counter); (c) random operation sequences through the inverter API "
-        "on the wire against a decoding simulator, with drops so that retransmissions occur and TCP sessions closed by the peer between "
-        "requests; distinct = distinct (framing, "
+        "on the wire against a decoding simulator, with drops so that retransmissions occur, TCP sessions closed by the peer between "
+        "requests and failing TCP connection attempts: every transmission made during call k must decode to the operation of call k; distinct = distinct (framing, "
         "command class, argument class) tuples + distinct transaction ids seen")
 ASSUMPTIONS = ["the decoders in refcodec follow the Modbus specification (big-endian fields, CRC lo-hi, MBAP length = bytes "
                "that follow) and the AA55 framing stated in the property"]
